@@ -158,6 +158,16 @@ CLAIMED = {
         "note": _NOTE + " A solve()-only obligation is deliberately not claimed (its counterexample is rescued by the caller's second pass - DESIGN.md section 7 F3).",
         "technique": "CrossHair symbolic execution + z3; symbolic preorder; all permutations inside one path",
     },
+    "C20": {
+        "design_ref": "DESIGN.md section 5 C20",
+        "text": ("The real Evaluator.evaluate (EvaluateVisitor + ConditionEvaluator) runs on bodies generated from the restricted grammar "
+                 "(if/elif/else depth 2, and/or/not, is_of_type with and without exclude_any=False, == / is None, is_provided / "
+                 "is_positional / is_keyword, sys.version_info >= (3, N), return, show_error) with two parameters; atoms are under a "
+                 "symbolic preorder, literals / compared constant / N are symbolic. Chosen branches, show_error set and result equal a "
+                 "reference interpreter for atomic arguments lifted to unions member-wise, as the specification prescribes."),
+        "note": _NOTE + " Evaluator is subclassed only to resolve the names of the generated bodies; positions fed from binding (signature.py) are enumerated, not derived.",
+        "technique": "CrossHair symbolic execution + z3; symbolic preorder; 70-line reference interpreter from docs/type_evaluation.md",
+    },
 }
 
 _PENDING = "harness not landed yet in this commit (build in progress; see DESIGN.md section 9)"
